@@ -916,7 +916,8 @@ pub fn replay_case(ctx: &crate::report::Ctx) -> Option<(String, u64)> {
     }
     let c = d.get("case")?;
     if let Some(n) = c.as_i64() {
-        return Some(("C11 system".to_string(), n as u64));
+        let stream = d.get("stream").and_then(|x| x.as_str()).unwrap_or("C11 system").to_string();
+        return Some((stream, n as u64));
     }
     let s = c.get("stream").and_then(|x| x.as_str()).unwrap_or("").to_string();
     Some((s, c.get("tape_index").and_then(|x| x.as_i64())? as u64))
